@@ -1,7 +1,11 @@
 // Package verifself holds the engine's self-test harnesses (run by `gosym selftest`).
 package verifself
 
-import "github.com/GuanceCloud/platypus/internal/verifnd"
+import (
+	"sync"
+
+	"github.com/GuanceCloud/platypus/internal/verifnd"
+)
 
 // SelfTwin must be reported: a reachable Assert(false).
 func SelfTwin() {
@@ -53,5 +57,25 @@ func SelfStrings() {
 	}
 	t := s + "x"
 	verifnd.Assert(len(t) == 3 && t[2] == 'x', "concat")
+	verifnd.Reach("done")
+}
+
+var selfCache sync.Map
+
+// SelfSyncMap must hold: the sync.Map model behaves like a map with interface keys,
+// including a symbolic string key.
+func SelfSyncMap() {
+	s := verifnd.Bytes(2)
+	selfCache.Store("ab", 1)
+	_, had := selfCache.LoadOrStore(s, 2)
+	verifnd.Assert(had == (s == "ab"), "load-or-store")
+	v, ok := selfCache.Load("ab")
+	verifnd.Assert(ok && v.(int) == 1, "first-store-kept")
+	n := 0
+	selfCache.Range(func(k, v any) bool { n++; return true })
+	verifnd.Assert((n == 1) == (s == "ab"), "range-count")
+	selfCache.Delete("ab")
+	_, ok = selfCache.Load(s)
+	verifnd.Assert(ok == (s != "ab"), "delete")
 	verifnd.Reach("done")
 }
